@@ -162,6 +162,14 @@ def call_closure(ip, fr, clos, cargs, st):
             return None
     else:
         envptr = None
+    if clos[0] == "fn":
+        # a crate-local fn item passed where a closure is expected
+        fb = None
+        if isinstance(clos[1], dict):
+            fb = ip.f.body(clos[1].get("full") or "") or ip.f.body(norm(clos[1].get("full") or ""))
+        if fb is None:
+            return None
+        return ip.call_body(fb, list(cargs), st, fr.chain)
     if clos[0] != "clos":
         return None
     cb = ip.f.body(clos[1])
@@ -664,7 +672,8 @@ def m_is_null(ip, fr, c, t, args, st):
     return [(("bunk", next(ip.ctr)), st)]
 
 
-@model("std::ptr::read")
+@model("std::ptr::read", "std::ptr::mut_ptr::<impl *mut T>::read", "std::ptr::const_ptr::<impl *const T>::read",
+       "std::ptr::read_unaligned", "std::ptr::read_volatile")
 def m_ptr_read(ip, fr, c, t, args, st):
     p = args[0]
     if p[0] == "ptr":
@@ -673,7 +682,7 @@ def m_ptr_read(ip, fr, c, t, args, st):
     return [(ip.fresh_of_ty(st, t["dest"]["ty"], "read"), st)]
 
 
-@model("std::ptr::drop_in_place")
+@model("std::ptr::drop_in_place", "std::mem::MaybeUninit::assume_init_drop", "std::ptr::mut_ptr::<impl *mut T>::drop_in_place")
 def m_drop_in_place(ip, fr, c, t, args, st):
     info = {"kind": "drop", "callee": "drop_in_place", "in": fr.body.path, "loc": c.loc, "chain": fr.chain, "bb": c.bb}
     ip.events.append(("user_drop", info))
@@ -907,6 +916,257 @@ def m_mutref_next(ip, fr, c, t, args, st):
         if tb.name == want:
             return ip.call_body(tb, [inner], st, fr.chain)
     return [(("unk", next(ip.ctr), "next"), st)]
+
+
+# ---------------------------------------------------------------------------------------- more combinators (std forms a refactoring may use)
+def _closure_results(ip, fr, c, clos, cargs, st, what):
+    """[(rv, st)] of calling a closure / fn item argument; an opaque callable is a user closure call with unknown result"""
+    r = call_closure(ip, fr, clos, cargs, st)
+    if r is None:
+        info = {"kind": "closure", "callee": "callable passed to %s" % what, "in": fr.body.path, "loc": c.loc, "chain": fr.chain, "bb": c.bb}
+        ip.events.append(("user_call", info))
+        return [(("unk", next(ip.ctr), "called"), st)]
+    return r
+
+
+def _pay(ip, v, vn):
+    x = payload(v, vn)
+    return x if x is not None else ("unk", next(ip.ctr), vn.lower())
+
+
+@model("<std::option::Option<T> as std::ops::Try>::branch")
+def m_try_branch_opt(ip, fr, c, t, args, st):
+    outs = []
+    v = args[0]
+    for (vn, s) in variant_of(ip, st, v, ["None", "Some"]):
+        if vn == "Some":
+            outs.append((("enum", "std::ops::ControlFlow", "Continue", {"Continue": {"0": _pay(ip, v, "Some")}}), s))
+        else:
+            outs.append((("enum", "std::ops::ControlFlow", "Break", {"Break": {"0": option("None")}}), s))
+    return outs
+
+
+@model("<std::option::Option<T> as std::ops::FromResidual<std::option::Option<std::convert::Infallible>>>::from_residual")
+def m_from_residual_opt(ip, fr, c, t, args, st):
+    return [(option("None"), st)]
+
+
+@model("std::option::Option::and_then")
+def m_option_and_then(ip, fr, c, t, args, st):
+    outs = []
+    for (vn, s) in _opt_parts(ip, st, args[0]):
+        if vn == "None":
+            outs.append((option("None"), s))
+        else:
+            outs += _closure_results(ip, fr, c, args[1], [_pay(ip, args[0], "Some")], s, "Option::and_then")
+    return outs
+
+
+@model("std::option::Option::map_or")
+def m_option_map_or(ip, fr, c, t, args, st):
+    outs = []
+    for (vn, s) in _opt_parts(ip, st, args[0]):
+        if vn == "None":
+            outs.append((args[1], s))
+        else:
+            outs += _closure_results(ip, fr, c, args[2], [_pay(ip, args[0], "Some")], s, "Option::map_or")
+    return outs
+
+
+@model("std::option::Option::map_or_else")
+def m_option_map_or_else(ip, fr, c, t, args, st):
+    outs = []
+    for (vn, s) in _opt_parts(ip, st, args[0]):
+        if vn == "None":
+            outs += _closure_results(ip, fr, c, args[1], [], s, "Option::map_or_else")
+        else:
+            outs += _closure_results(ip, fr, c, args[2], [_pay(ip, args[0], "Some")], s, "Option::map_or_else")
+    return outs
+
+
+@model("std::option::Option::ok_or_else")
+def m_option_ok_or_else(ip, fr, c, t, args, st):
+    outs = []
+    for (vn, s) in _opt_parts(ip, st, args[0]):
+        if vn == "Some":
+            outs.append((result("Ok", _pay(ip, args[0], "Some")), s))
+        else:
+            outs += [(result("Err", rv), s2) for (rv, s2) in _closure_results(ip, fr, c, args[1], [], s, "Option::ok_or_else")]
+    return outs
+
+
+@model("std::option::Option::unwrap_or")
+def m_option_unwrap_or(ip, fr, c, t, args, st):
+    return [((_pay(ip, args[0], "Some") if vn == "Some" else args[1]), s) for (vn, s) in _opt_parts(ip, st, args[0])]
+
+
+@model("std::option::Option::unwrap_or_else")
+def m_option_unwrap_or_else(ip, fr, c, t, args, st):
+    outs = []
+    for (vn, s) in _opt_parts(ip, st, args[0]):
+        if vn == "Some":
+            outs.append((_pay(ip, args[0], "Some"), s))
+        else:
+            outs += _closure_results(ip, fr, c, args[1], [], s, "Option::unwrap_or_else")
+    return outs
+
+
+@model("std::option::Option::filter")
+def m_option_filter(ip, fr, c, t, args, st):
+    outs = []
+    for (vn, s) in _opt_parts(ip, st, args[0]):
+        if vn == "None":
+            outs.append((option("None"), s))
+            continue
+        x = _pay(ip, args[0], "Some")
+        tmp = ip.new_oid("T")
+        s.store[tmp] = x
+        for (rv, s2) in _closure_results(ip, fr, c, args[1], [("ptr", tmp, ())], s, "Option::filter"):
+            for truth in (True, False):
+                s3 = s2.fork()
+                if rv[0] in ("bool", "bnot", "cmp", "peq", "isnull") and not fr.assume_bool(s3, rv, truth):
+                    continue
+                outs.append((option("Some", x) if truth else option("None"), s3))
+    return outs
+
+
+def _ref_into(ip, st, p, variants, mk):
+    """Option::as_ref / Result::as_ref and their _mut forms: same variant, payload = pointer to the payload in place"""
+    if p[0] != "ptr":
+        return [(("unk", next(ip.ctr), "as_ref"), st)]
+    oid, path = ip.resolve_ptr(st, p)
+    v = ip.load(st, oid, path)
+    outs = []
+    for (vn, s) in variant_of(ip, st, v, variants):
+        if v[0] == "enum" and v[2] is None:
+            # fix the variant in the store of this partition so that later reads agree
+            try:
+                ip._store_at(s, oid, path, ("enum", v[1], vn, dict(v[3])))
+            except Exception:
+                pass
+        outs.append((mk(vn, ("ptr", oid, path + ("@" + vn, "0"))), s))
+    return outs
+
+
+@model("std::option::Option::as_ref", "std::option::Option::as_mut")
+def m_option_as_ref(ip, fr, c, t, args, st):
+    return _ref_into(ip, st, args[0], ["None", "Some"], lambda vn, p: option("Some", p) if vn == "Some" else option("None"))
+
+
+@model("std::result::Result::as_ref", "std::result::Result::as_mut")
+def m_result_as_ref(ip, fr, c, t, args, st):
+    return _ref_into(ip, st, args[0], ["Ok", "Err"], lambda vn, p: result(vn, p))
+
+
+@model("std::result::Result::map")
+def m_result_map(ip, fr, c, t, args, st):
+    outs = []
+    for (vn, s) in variant_of(ip, st, args[0], ["Ok", "Err"]):
+        if vn == "Err":
+            outs.append((result("Err", _pay(ip, args[0], "Err")), s))
+        else:
+            outs += [(result("Ok", rv), s2) for (rv, s2) in _closure_results(ip, fr, c, args[1], [_pay(ip, args[0], "Ok")], s, "Result::map")]
+    return outs
+
+
+@model("std::result::Result::map_err")
+def m_result_map_err(ip, fr, c, t, args, st):
+    outs = []
+    for (vn, s) in variant_of(ip, st, args[0], ["Ok", "Err"]):
+        if vn == "Ok":
+            outs.append((result("Ok", _pay(ip, args[0], "Ok")), s))
+        else:
+            outs += [(result("Err", rv), s2) for (rv, s2) in _closure_results(ip, fr, c, args[1], [_pay(ip, args[0], "Err")], s, "Result::map_err")]
+    return outs
+
+
+@model("std::result::Result::and_then")
+def m_result_and_then(ip, fr, c, t, args, st):
+    outs = []
+    for (vn, s) in variant_of(ip, st, args[0], ["Ok", "Err"]):
+        if vn == "Err":
+            outs.append((result("Err", _pay(ip, args[0], "Err")), s))
+        else:
+            outs += _closure_results(ip, fr, c, args[1], [_pay(ip, args[0], "Ok")], s, "Result::and_then")
+    return outs
+
+
+@model("std::result::Result::map_or_else")
+def m_result_map_or_else(ip, fr, c, t, args, st):
+    outs = []
+    for (vn, s) in variant_of(ip, st, args[0], ["Ok", "Err"]):
+        if vn == "Err":
+            outs += _closure_results(ip, fr, c, args[1], [_pay(ip, args[0], "Err")], s, "Result::map_or_else")
+        else:
+            outs += _closure_results(ip, fr, c, args[2], [_pay(ip, args[0], "Ok")], s, "Result::map_or_else")
+    return outs
+
+
+@model("std::result::Result::map_or")
+def m_result_map_or(ip, fr, c, t, args, st):
+    outs = []
+    for (vn, s) in variant_of(ip, st, args[0], ["Ok", "Err"]):
+        if vn == "Err":
+            outs.append((args[1], s))
+        else:
+            outs += _closure_results(ip, fr, c, args[2], [_pay(ip, args[0], "Ok")], s, "Result::map_or")
+    return outs
+
+
+@model("std::result::Result::unwrap_or_else")
+def m_result_unwrap_or_else(ip, fr, c, t, args, st):
+    outs = []
+    for (vn, s) in variant_of(ip, st, args[0], ["Ok", "Err"]):
+        if vn == "Ok":
+            outs.append((_pay(ip, args[0], "Ok"), s))
+        else:
+            outs += _closure_results(ip, fr, c, args[1], [_pay(ip, args[0], "Err")], s, "Result::unwrap_or_else")
+    return outs
+
+
+@model("std::result::Result::ok")
+def m_result_ok(ip, fr, c, t, args, st):
+    return [((option("Some", _pay(ip, args[0], "Ok")) if vn == "Ok" else option("None")), s)
+            for (vn, s) in variant_of(ip, st, args[0], ["Ok", "Err"])]
+
+
+@model("std::result::Result::is_ok", "std::result::Result::is_err")
+def m_result_is_ok(ip, fr, c, t, args, st):
+    want = "Ok" if norm(c.resolved or c.nominal).endswith("is_ok") else "Err"
+    v = args[0]
+    if v[0] == "ptr":
+        v = ip.load(st, *ip.resolve_ptr(st, v))
+    return [(("bool", vn == want), s) for (vn, s) in variant_of(ip, st, v, ["Ok", "Err"])]
+
+
+@model("core::bool::<impl bool>::then_some")
+def m_then_some(ip, fr, c, t, args, st):
+    outs = []
+    for truth in (True, False):
+        s = st.fork()
+        if not fr.assume_bool(s, args[0], truth):
+            continue
+        outs.append((option("Some", args[1]) if truth else option("None"), s))
+    return outs
+
+
+@model("core::bool::<impl bool>::then")
+def m_then(ip, fr, c, t, args, st):
+    outs = []
+    for truth in (True, False):
+        s = st.fork()
+        if not fr.assume_bool(s, args[0], truth):
+            continue
+        if truth:
+            outs += [(option("Some", rv), s2) for (rv, s2) in _closure_results(ip, fr, c, args[1], [], s, "bool::then")]
+        else:
+            outs.append((option("None"), s))
+    return outs
+
+
+@model("std::ptr::eq", "std::ptr::addr_eq")
+def m_ptr_eq(ip, fr, c, t, args, st):
+    return [(("peq", args[0], args[1], False), st)]
 
 
 @model("std::cmp::PartialEq::ne")
